@@ -4,6 +4,7 @@
 #define MuscleAtomicCounter_h
 
 #include "support/MuscleSupport.h"
+#include "support/VerifHooks.h"
 
 #ifdef MUSCLE_SINGLE_THREAD_ONLY
   // empty
@@ -74,6 +75,7 @@ public:
    MUSCLE_NODISCARD inline bool AtomicIncrement()
    {
 #if defined(MUSCLE_SINGLE_THREAD_ONLY) || !defined(MUSCLE_AVOID_CPLUSPLUS11)
+      (void) MUSCLE_VERIF_YIELD(muscle::verif::YIELD_ATOMIC, this, 1);
       return (++_count == 1);
 #elif defined(MUSCLE_USE_MUTEXES_FOR_ATOMIC_OPERATIONS)
       return (DoMutexAtomicIncrement(&_count, 1) == 1);
@@ -113,6 +115,7 @@ public:
    MUSCLE_NODISCARD inline bool AtomicDecrement()
    {
 #if defined(MUSCLE_SINGLE_THREAD_ONLY) || !defined(MUSCLE_AVOID_CPLUSPLUS11)
+      (void) MUSCLE_VERIF_YIELD(muscle::verif::YIELD_ATOMIC, this, -1);
       return (--_count == 0);
 #elif defined(MUSCLE_USE_MUTEXES_FOR_ATOMIC_OPERATIONS)
       return (DoMutexAtomicIncrement(&_count, -1) == 0);
@@ -175,6 +178,7 @@ public:
          return NonAtomicConditionalSetCount(fromOldValue, toNewValue);
       }
 #elif !defined(MUSCLE_AVOID_CPLUSPLUS11)
+      (void) MUSCLE_VERIF_YIELD(muscle::verif::YIELD_ATOMIC, this, 0);
       return _count.compare_exchange_strong(fromOldValue, toNewValue) ? B_NO_ERROR : B_BAD_OBJECT;
 #elif defined(WIN32)
       return (InterlockedCompareExchange(&_count, toNewValue, fromOldValue) == fromOldValue) ? B_NO_ERROR : B_BAD_OBJECT;
